@@ -51,16 +51,55 @@ theorem TI.zero (b : Nat) : TI zeroTable b := by
   unfold zeroTable
   exact Or.inl (replicate_zero _ _)
 
+/-! ## Side conditions on the regenerated constants and hash function
+
+The Go tables have `htSize = 1 << hashLog` entries; `blockHashHC` is used unmasked as an index into
+`hashTable` and `si & winMask` as an index into `chainTable`.  The two facts below (computed on the
+regenerated `Gen` values) are exactly what makes those indices fit. -/
+
+/-- a 32-bit value shifted right by 16 is `< 2^16 = htSize` -/
+theorem hash_in_range (x : UInt32) : (Gen.blockHashHC x).toNat < Gen.htSize := by
+  unfold Gen.blockHashHC Gen.htSize
+  rw [UInt32.toNat_shiftRight, Nat.shiftRight_eq_div_pow]
+  have h := (x * 2654435761).toNat_lt
+  have e : (16 : UInt32).toNat % 32 = 16 := by decide
+  rw [e]
+  omega
+
+theorem win_le_ht : Gen.winSize ≤ Gen.htSize := by decide
+
+theorem win_pos : 0 < Gen.winSize := by decide
+
+theorem hashIdx_lt (x : UInt32) : hashIdx x < htSize := hash_in_range x
+
+theorem winIdx_lt (i : Nat) : i % winSize < htSize :=
+  Nat.lt_of_lt_of_le (Nat.mod_lt _ win_pos) win_le_ht
+
+theorem size_set! (t : Array Nat) (i v : Nat) : (t.set! i v).size = t.size := by
+  show (t.setIfInBounds i v).size = _
+  exact Array.size_setIfInBounds ..
+
+theorem zeroTable_size : zeroTable.size = htSize := by
+  unfold zeroTable; exact Array.size_replicate ..
+
 theorem rehash_spec (src : Array UInt8) (b : Nat) :
     ∀ (n s : Nat) (m : UInt32) (ht ct : Array Nat), TI ht b → TI ct b → s + n ≤ b →
-      TI (rehash src n s m ht ct).1 b ∧ TI (rehash src n s m ht ct).2 b := by
+      ht.size = htSize → ct.size = htSize →
+      ∃ ht' ct', rehash src n s m ht ct = some (ht', ct') ∧ TI ht' b ∧ TI ct' b ∧
+        ht'.size = htSize ∧ ct'.size = htSize := by
   intro n
   induction n with
-  | zero => intro s m ht ct h1 h2 _; exact ⟨h1, h2⟩
+  | zero => intro s m ht ct h1 h2 _ z1 z2; exact ⟨ht, ct, rfl, h1, h2, z1, z2⟩
   | succ n ih =>
-    intro s m ht ct h1 h2 hs
+    intro s m ht ct h1 h2 hs z1 z2
     simp only [rehash]
+    have c : ¬ (hashIdx (m >>> 8 ||| src[s + 3]!.toUInt32 <<< 24) ≥ ht.size ∨ s % winSize ≥ ct.size) := by
+      have a1 := hashIdx_lt (m >>> 8 ||| src[s + 3]!.toUInt32 <<< 24)
+      have a2 := winIdx_lt s
+      omega
+    rw [if_neg c]
     exact ih (s+1) _ _ _ (h1.set _ s (Or.inr (by omega))) (h2.set _ _ (h1 _)) (by omega)
+      (by rw [size_set!]; exact z1) (by rw [size_set!]; exact z2)
 
 /-! ## The match search -/
 
@@ -113,7 +152,7 @@ theorem CW.le {src : Array UInt8} {si sn mLen offset : Nat} (h : CW src si sn mL
   · exact h.2.2.2.2.1
 
 theorem chainWalk_spec (src : Array UInt8) (ct : Array Nat) (si sn : Nat) (hsn : sn + 14 = src.size)
-    (hsi : si < sn) (hct : TI ct si) :
+    (hsi : si < sn) (hct : TI ct si) (zct : ct.size = htSize) :
     ∀ (try_ next mLen offset : Nat), (next = 0 ∨ next < si) → CW src si sn mLen offset →
       ∃ m o, chainWalk src ct si sn try_ next mLen offset = some (m, o) ∧ CW src si sn m o := by
   intro try_
@@ -128,6 +167,10 @@ theorem chainWalk_spec (src : Array UInt8) (ct : Array Nat) (si sn : Nat) (hsn :
       have hlt : next < si := by omega
       have c2 : ¬ (next + mLen ≥ src.size ∨ si + mLen ≥ src.size) := by omega
       rw [if_neg c2]
+      have c2' : ¬ next % winSize ≥ ct.size := by
+        have := winIdx_lt next
+        omega
+      rw [if_neg c2']
       simp only []
       have hnn := hct (next % winSize)
       by_cases c3 : src[next + mLen]! ≠ src[si + mLen]!
@@ -159,19 +202,24 @@ theorem bound_fast (n : Nat) : Model.HC.bound n = Model.Fast.bound n := rfl
 theorem mainLoop_spec (src : Array UInt8) (sn depth : Nat) (notComp : Bool) (D : Nat) (hsn : sn + 14 = src.size)
     (hnc : notComp = false → Model.Fast.bound src.size ≤ D) :
     ∀ (fuel : Nat) (ht ct : Array Nat) (dst : Array UInt8) (di si anchor : Nat), dst.size = D →
-      TI ht si → TI ct si → anchor ≤ si → anchor + 7 ≤ src.size → di ≤ dst.size → 255 * di ≤ 256 * anchor →
+      TI ht si → TI ct si → ht.size = htSize → ct.size = htSize → anchor ≤ si → anchor + 7 ≤ src.size → di ≤ dst.size → 255 * di ≤ 256 * anchor →
       sn - si < fuel →
       Post src dst di anchor notComp (mainLoop src sn depth notComp fuel ht ct dst di si anchor) := by
   intro fuel
   induction fuel with
-  | zero => intro ht ct dst di si anchor _ _ _ _ _ _ _ hf; omega
+  | zero => intro ht ct dst di si anchor _ _ _ _ _ _ _ _ _ hf; omega
   | succ fuel ih =>
-    intro ht ct dst di si anchor hD hht hct has ha7 hdi hacc hf
+    intro ht ct dst di si anchor hD hht hct zht zct has ha7 hdi hacc hf
     rw [mainLoop]
     by_cases hlt : si < sn
     · rw [if_pos hlt]
       simp only []
-      obtain ⟨m, o, hcw, hCW⟩ := chainWalk_spec src ct si sn hsn hlt hct depth
+      have cidx : ¬ (hashIdx (ld32 src si) ≥ ht.size ∨ si % winSize ≥ ct.size) := by
+        have a1 := hashIdx_lt (ld32 src si)
+        have a2 := winIdx_lt si
+        omega
+      rw [if_neg cidx]
+      obtain ⟨m, o, hcw, hCW⟩ := chainWalk_spec src ct si sn hsn hlt hct zct depth
         (ht[hashIdx (ld32 src si)]!) 0 0 (hht _) (Or.inl rfl)
       rw [hcw]
       simp only []
@@ -182,17 +230,19 @@ theorem mainLoop_spec (src : Array UInt8) (sn depth : Nat) (notComp : Bool) (D :
       by_cases hm0 : m = 0
       · rw [if_pos hm0]
         generalize (si - anchor) / 2 ^ adaptSkipLogHC = q
-        exact ih _ _ dst di _ anchor hD (hht1.mono (by omega)) (hct1.mono (by omega)) (by omega) ha7 hdi hacc (by omega)
+        exact ih _ _ dst di _ anchor hD (hht1.mono (by omega)) (hct1.mono (by omega))
+          (by rw [size_set!]; exact zht) (by rw [size_set!]; exact zct) (by omega) ha7 hdi hacc (by omega)
       · rw [if_neg hm0]
         rcases hCW with hCW | ⟨m4, o1, o2, o3, mle, hbytes⟩
         · exact (hm0 hCW).elim
         have hws : (if si + m > winSize + (si + 1) then si + m - winSize else si + 1) +
             (si + m - (if si + m > winSize + (si + 1) then si + m - winSize else si + 1)) ≤ si + m := by
           split <;> omega
-        have hrh := rehash_spec src (si + m) _ _ (ld32 src si) _ _ (hht1.mono (by omega)) (hct1.mono (by omega)) hws
-        generalize rehash src _ _ (ld32 src si) _ _ = rr at hrh ⊢
-        obtain ⟨ht', ct'⟩ := rr
-        simp only [] at hrh ⊢
+        obtain ⟨ht', ct', hrr, hrh1, hrh2, zht', zct'⟩ := rehash_spec src (si + m) _ _ (ld32 src si) _ _
+          (hht1.mono (by omega)) (hct1.mono (by omega)) hws
+          (by rw [size_set!]; exact zht) (by rw [size_set!]; exact zct)
+        rw [hrr]
+        simp only []
         have em : m - minMatch = si + m - (si + 4) := by show m - 4 = _; omega
         rw [em]
         have hes := emitSeq_spec src dst di anchor (si - anchor) o (si + m - (si + 4)) (by omega)
@@ -224,7 +274,7 @@ theorem mainLoop_spec (src : Array UInt8) (sn depth : Nat) (notComp : Bool) (D :
             rw [e1, e2] at this; exact this.symm
           exact Post_cons src dst d' di di' anchor si (si + m) o notComp _ hW has (by omega) (by omega)
             o1 o2 o3 (by omega) hb hdi
-            (ih ht' ct' d' di' (si + m) (si + m) (by omega) hrh.1 hrh.2 (Nat.le_refl _) (by omega)
+            (ih ht' ct' d' di' (si + m) (si + m) (by omega) hrh1 hrh2 zht' zct' (Nat.le_refl _) (by omega)
               (by omega) (by omega) (by omega))
     · rw [if_neg hlt]
       exact lastLiterals_post src dst di anchor notComp (by omega) hdi hacc (by rw [hD]; exact hnc)
@@ -315,7 +365,7 @@ theorem compressBlock_spec (src dst : Array UInt8) (depth : Nat) :
     have h := mainLoop_spec src (src.size - mfLimit) (if depth = 0 then winSize else depth)
       (decide (dst.size < bound src.size)) dst.size (by omega)
       (by intro hh; rw [← bound_fast]; simpa using hh) (src.size + 1) zeroTable zeroTable dst 0 0 0 rfl
-      (TI.zero 0) (TI.zero 0) (by omega) (by omega) (by omega) (by omega) (by omega)
+      (TI.zero 0) (TI.zero 0) zeroTable_size zeroTable_size (by omega) (by omega) (by omega) (by omega) (by omega)
     unfold Post at h
     generalize mainLoop src (src.size - mfLimit) (if depth = 0 then winSize else depth)
       (decide (dst.size < bound src.size)) (src.size + 1) zeroTable zeroTable dst 0 0 0 = r at h ⊢
